@@ -8,14 +8,15 @@ import (
 	"github.com/gkampitakis/go-snaps/internal/vxrt"
 	"github.com/gkampitakis/go-snaps/match"
 	"github.com/tidwall/gjson"
+	"github.com/tidwall/pretty"
 )
 
 // ws returns an insignificant white-space byte at the one gap chosen for this
 // path (wsGap), nothing at the other gaps.
-var wsGap = -1
+var vxWsGap = -1
 
-func ws(label string) string {
-	if int(label[1]-'0') != wsGap {
+func vxWs(label string) string {
+	if int(label[1]-'0') != vxWsGap {
 		return ""
 	}
 	b := vxrt.Text(label, 1)
@@ -23,7 +24,7 @@ func ws(label string) string {
 	return b
 }
 
-func symKey(label string, n int) string {
+func vxSymKey(label string, n int) string {
 	k := vxrt.Text(label, vxrt.Len(label+"-len", 0, n))
 	for i := 0; i < len(k); i++ {
 		vxrt.Assume(vxrt.And(vxrt.And(k[i] >= 0x20, k[i] < 0x7f), vxrt.And(k[i] != '"', k[i] != '\\')))
@@ -31,14 +32,14 @@ func symKey(label string, n int) string {
 	return k
 }
 
-func symValue(label string) string {
+func vxSymValue(label string) string {
 	switch vxrt.Choice(label+"-kind", 4) {
 	case 0:
 		d := vxrt.Text(label+"-digit", 1)
 		vxrt.Assume(vxrt.And(d[0] >= '0', d[0] <= '9'))
 		return d
 	case 1:
-		return `"` + symKey(label+"-str", 1) + `"`
+		return `"` + vxSymKey(label+"-str", 1) + `"`
 	case 2:
 		return []string{"true", "false", "null"}[vxrt.Choice(label+"-lit", 3)]
 	default:
@@ -51,28 +52,28 @@ func symValue(label string) string {
 // valid JSON and parses to the same value as the input.
 func H_C14_canonical() {
 	n := vxrt.Param("n", 1)
-	k1, k2 := symKey("k1", n), symKey("k2", n)
-	vxrt.Assume(differs(k1, k2)) // keys of one object pairwise distinct
-	v1 := symValue("v1")
+	k1, k2 := vxSymKey("k1", n), vxSymKey("k2", n)
+	vxrt.Assume(vxDiffers(k1, k2)) // keys of one object pairwise distinct
+	v1 := vxSymValue("v1")
 	v2 := "7"
 	if vxrt.Param("v2sym", 0) == 1 {
-		v2 = symValue("v2")
+		v2 = vxSymValue("v2")
 	}
-	wsGap = vxrt.Choice("whitespace-gap", 8) - 1
+	vxWsGap = vxrt.Choice("whitespace-gap", 8) - 1
 	var plain, spaced, swapped string
 	shape := vxrt.Choice("shape", 3)
 	switch shape {
 	case 0: // two members
 		plain = `{"` + k1 + `":` + v1 + `,"` + k2 + `":` + v2 + `}`
-		spaced = ws("w0") + `{` + ws("w1") + `"` + k1 + `"` + ws("w2") + `:` + ws("w3") + v1 + ws("w4") + `,` + `"` + k2 + `":` + v2 + ws("w5") + `}` + ws("w6")
+		spaced = vxWs("w0") + `{` + vxWs("w1") + `"` + k1 + `"` + vxWs("w2") + `:` + vxWs("w3") + v1 + vxWs("w4") + `,` + `"` + k2 + `":` + v2 + vxWs("w5") + `}` + vxWs("w6")
 		swapped = `{"` + k2 + `":` + v2 + `,"` + k1 + `":` + v1 + `}`
 	case 1: // nested
 		plain = `{"` + k1 + `":{"` + k2 + `":` + v1 + `}}`
-		spaced = `{"` + k1 + `":` + ws("w1") + `{` + ws("w2") + `"` + k2 + `":` + v1 + ws("w3") + `}` + ws("w4") + `}`
+		spaced = `{"` + k1 + `":` + vxWs("w1") + `{` + vxWs("w2") + `"` + k2 + `":` + v1 + vxWs("w3") + `}` + vxWs("w4") + `}`
 		swapped = plain
 	default: // array
 		plain = `[` + v1 + `,` + v2 + `]`
-		spaced = ws("w0") + `[` + ws("w1") + v1 + ws("w2") + `,` + ws("w3") + v2 + ws("w4") + `]`
+		spaced = vxWs("w0") + `[` + vxWs("w1") + v1 + vxWs("w2") + `,` + vxWs("w3") + v2 + vxWs("w4") + `]`
 		swapped = plain
 	}
 	// configuration: default, or explicit options
@@ -93,13 +94,13 @@ func H_C14_canonical() {
 	nth := 0
 	snap := func(in any) (string, bool) {
 		nth++
-		t := newT("TestForm" + itoa(nth))
+		t := vxNewT("TestForm" + vxItoa(nth))
 		c.MatchJSON(t, in)
 		t.end()
 		if len(t.errors) != 0 || len(t.logs) != 1 {
 			return "", false
 		}
-		got, _, err := refPrev("[TestForm"+itoa(nth)+" - 1]", vxrt.Dir()+"/f.snap")
+		got, _, err := vxRefPrev("[TestForm"+vxItoa(nth)+" - 1]", vxrt.Dir()+"/f.snap")
 		return got, err == nil
 	}
 	sPlain, ok1 := snap(plain)
@@ -115,7 +116,7 @@ func H_C14_canonical() {
 	vxrt.Assert(ok6 && vxrt.Eq(sPlain, sSpacedBytes), "C14:string-and-bytes-store-identically")
 	vxrt.Assert(vxrt.Eq(string(callerBytes), spaced), "C14:caller-bytes-untouched")
 	nth++
-	tm := newT("TestForm" + itoa(nth))
+	tm := vxNewT("TestForm" + vxItoa(nth))
 	c.MatchJSON(tm, callerBytes, match.Any("no.such.member").ErrOnMissingPath(false))
 	tm.end()
 	vxrt.Assert(len(tm.errors) == 0 && vxrt.Eq(string(callerBytes), spaced), "C14:caller-bytes-untouched")
@@ -127,14 +128,14 @@ func H_C14_canonical() {
 		vxrt.Assert(ok5 && vxrt.Eq(sPlain, sSwapped), "C14:member-order-insensitive-by-default")
 	}
 	vxrt.Assert(gjson.Valid(sPlain), "C14:stored-text-is-valid-json")
-	want := compactRef(plain)
+	want := vxCompactRef(plain)
 	if sortKeys && shape == 0 {
 		// expected member order under sorting: by key bytes
 		if k2 < k1 {
-			want = compactRef(swapped)
+			want = vxCompactRef(swapped)
 		}
 	}
-	vxrt.Assert(vxrt.Eq(compactRef(sPlain), want), "C14:stored-text-has-the-same-value")
+	vxrt.Assert(vxrt.Eq(vxCompactRef(sPlain), want), "C14:stored-text-has-the-same-value")
 	vxrt.Assert(len(sPlain) == 0 || sPlain[len(sPlain)-1] != '\n', "C14:no-trailing-newline")
 }
 
@@ -153,8 +154,8 @@ func H_C14_invalid() {
 	case 2:
 		in = json.RawMessage(doc)
 	}
-	empty := dumpDir(dir)
-	t := newT("TestJ")
+	empty := vxDumpDir(dir)
+	t := vxNewT("TestJ")
 	if api == 0 {
 		c.MatchJSON(t, in)
 	} else {
@@ -168,18 +169,66 @@ func H_C14_invalid() {
 	}
 	vxrt.Reach("invalid")
 	vxrt.Assert(len(t.errors) == 1 && len(t.logs) == 0, "C14:invalid-fails-once")
-	vxrt.Assert(vxrt.Eq(dumpDir(dir), empty), "C14:invalid-writes-nothing")
+	vxrt.Assert(vxrt.Eq(vxDumpDir(dir), empty), "C14:invalid-writes-nothing")
 	// the rejected call consumed its slot: a following valid call of the same test is number 2
-	t2 := newT("TestJ2")
+	t2 := vxNewT("TestJ2")
 	if api == 0 {
 		c.MatchJSON(t2, in)
 		c.MatchJSON(t2, `{"ok":1}`)
-		_, _, err := refPrev("[TestJ2 - 2]", dir+"/f.snap")
+		_, _, err := vxRefPrev("[TestJ2 - 2]", dir+"/f.snap")
 		vxrt.Assert(err == nil, "C14:rejected-call-keeps-its-slot")
 	} else {
 		c.MatchStandaloneJSON(t2, in)
 		c.MatchStandaloneJSON(t2, `{"ok":1}`)
-		vxrt.Assert(readFile(dir+"/f_2.snap.json") != "<missing>", "C14:rejected-call-keeps-its-slot")
+		vxrt.Assert(vxReadFile(dir+"/f_2.snap.json") != "<missing>", "C14:rejected-call-keeps-its-slot")
 	}
 	t2.end()
+}
+
+// H_C14_update: an update stores the canonical text of the new document like a first recording
+// does, whatever characters it contains ('$', '%', '\\' are special to the tools a rewrite might be
+// built from): the next read-only execution replays it, and the stored text is the pretty form.
+func H_C14_update() {
+	vxrt.CI(false)
+	vxrt.EnvFixed("NO_COLOR", "1")
+	dir := vxrt.Dir()
+	path := dir + "/f.snap"
+	doc := []string{
+		`{"price":"$10","expr":"${total}","group":"$1"}`,
+		`{"pct":"100%d","fmt":"%s %v"}`,
+		`{"path":"C:\\dir\\1","re":"\\1"}`,
+	}[vxrt.Choice("document", 3)]
+	standalone := vxrt.Bool("standalone")
+	upd := WithConfig(Dir(dir), Filename("f"), Update(true))
+	ro := WithConfig(Dir(dir), Filename("f"), Update(false))
+	if standalone {
+		path = dir + "/f_1.snap.json"
+		vxWriteFile(path, "{\n \"old\": true\n}")
+	} else {
+		vxWriteFile(path, vxFrame("TestZ - 1", "z")+vxFrame("TestJ - 1", "{\n \"old\": true\n}")+vxFrame("TestY - 1", "y"))
+	}
+	call := func(c *Config, t *vxMockT) {
+		if standalone {
+			c.MatchStandaloneJSON(t, doc)
+		} else {
+			c.MatchJSON(t, doc)
+		}
+	}
+	tu := vxNewT("TestJ")
+	call(upd, tu)
+	tu.end()
+	vxrt.Assert(len(tu.errors) == 0 && len(tu.logs) == 1, "C14:update-reports-updated")
+	want := string(pretty.PrettyOptions([]byte(doc), &pretty.Options{SortKeys: true, Indent: " "}))
+	want = want[:len(want)-1]
+	if standalone {
+		vxrt.Assert(vxReadFile(path) == want, "C14:stored-text-has-the-same-value")
+	} else {
+		got, _, err := vxRefPrev("[TestJ - 1]", path)
+		vxrt.Assert(err == nil && got == want, "C14:stored-text-has-the-same-value")
+		vxrt.Assert(vxReadFile(path) == vxFrame("TestZ - 1", "z")+vxFrame("TestJ - 1", want)+vxFrame("TestY - 1", "y"), "C04:file-is-exactly-the-new-frames")
+	}
+	tr := vxNewT("TestJ")
+	call(ro, tr)
+	tr.end()
+	vxrt.Assert(len(tr.errors) == 0 && len(tr.logs) == 0, "C14:updated-document-replays")
 }
